@@ -24,8 +24,8 @@ Definition rstore := store rcmd rresp rsm N.
 (** * Pipeline unit cases *)
 Inductive ustep :=
 | UNext (term : N) (obs : N)
-| UReg (id tok : N) (obs : reg_out)
-| URem (id : N)
+| UReg (region id tok : N) (obs : reg_out)
+| URem (region id : N)
 | UApply (es : list rentry) (obs : apply_out) (seen : list (N * option rresp)).  (* applier calls: uid, answer *)
 
 Definition reg_out_eqb (a b : reg_out) : bool :=
@@ -58,11 +58,11 @@ Fixpoint urun (steps : list ustep) (s : rstore) : rstore * bool :=
         | UNext term obs =>
             let '(id, p) := next_id term (s_pipe s) in
             ({| s_pipe := p; s_sm := s_sm s; s_log := s_log s; s_done := s_done s; s_mark := s_mark s |}, id =? obs)
-        | UReg id tok obs =>
-            let '(ro, p) := register id tok (s_pipe s) in
+        | UReg region id tok obs =>
+            let '(ro, p) := register region id tok (s_pipe s) in
             ({| s_pipe := p; s_sm := s_sm s; s_log := s_log s; s_done := s_done s; s_mark := s_mark s |}, reg_out_eqb ro obs)
-        | URem id =>
-            ({| s_pipe := unregister id (s_pipe s); s_sm := s_sm s; s_log := s_log s; s_done := s_done s; s_mark := s_mark s |}, true)
+        | URem region id =>
+            ({| s_pipe := unregister region id (s_pipe s); s_sm := s_sm s; s_log := s_log s; s_done := s_done s; s_mark := s_mark s |}, true)
         | UApply es obs seen =>
             let '(s', out) := apply_entries rapply es s in
             let fresh := rev (firstn (List.length (s_log s') - List.length (s_log s))%nat (s_log s')) in
@@ -85,13 +85,14 @@ Definition polled_ok (s : rstore) (final : list (N * option (option rresp))) : b
     registration and exactly one applied entry uses must receive that entry's
     answer (judged on the observations only). *)
 Definition regs_of (steps : list ustep) : list (N * N) :=
-  flat_map (fun st => match st with UReg id tok RegOk => [(id, tok)] | _ => [] end) steps.
+  flat_map (fun st => match st with UReg _ id tok RegOk => [(id, tok)] | _ => [] end) steps.
 
 (** * Cluster cases *)
 Record rstate := {
   r_g : gstate rcmd rresp rsm;
   r_ok : bool;
-  r_served : list (N * N);          (* store -> largest apply mark observed at a served read, this incarnation *)
+  r_served : list (N * N);          (* (store, region) -> largest apply mark observed at a served read, this incarnation *)
+  r_last : list (N * N);            (* (store, region) -> index of the last entry applied, this incarnation *)
   r_cmds : list (N * rcmd)          (* client call -> its command *)
 }.
 Definition served_of (l : list (N * N)) (s : N) : N :=
@@ -122,17 +123,19 @@ Definition rstep (r : rstate) (e : oev) : rstate :=
   let g := r_g r in
   match e with
   | OStart s =>
-      {| r_g := gs g (GStart s); r_ok := r_ok r; r_served := set_served (r_served r) s 0; r_cmds := r_cmds r |}
-  | OPropose s w c leader term o =>
-      let g1 := gs g (GPropose s w c (VStatus leader term 0)) in
+      {| r_g := gs g (GStart s); r_ok := r_ok r;
+         r_served := filter (fun x => negb (fst x / 2^32 =? s)) (r_served r);
+         r_last := filter (fun x => negb (fst x / 2^32 =? s)) (r_last r); r_cmds := r_cmds r |}
+  | OPropose s region w c leader term o =>
+      let g1 := gs g (GPropose s region w c (VStatus leader term 0)) in
       (* raft refused the proposal: ProposeCommand removes the waiter again and returns the error *)
-      let g' := match o, head_out g1 with PoDropped, OWaiting id => gs g1 (GTimeout s id) | _, _ => g1 end in
-      {| r_g := g'; r_ok := r_ok r && out_matches (head_out g1) o; r_served := r_served r; r_cmds := (w, c) :: r_cmds r |}
-  | ORead s w c leader term o =>
+      let g' := match o, head_out g1 with PoDropped, OWaiting id => gs g1 (GTimeout s region id) | _, _ => g1 end in
+      {| r_g := g'; r_ok := r_ok r && out_matches (head_out g1) o; r_served := r_served r; r_last := r_last r; r_cmds := (w, c) :: r_cmds r |}
+  | ORead s region w c leader term o =>
       let g' := gs g (GRead s w (VStatus leader term 0)) in
-      {| r_g := g'; r_ok := r_ok r && out_matches (head_out g') o; r_served := r_served r; r_cmds := (w, c) :: r_cmds r |}
-  | OApply s i t id c res =>
-      let e := {| e_index := i; e_term := t; e_kind := ENormal; e_data := PCmd id c |} in
+      {| r_g := g'; r_ok := r_ok r && out_matches (head_out g') o; r_served := r_served r; r_last := r_last r; r_cmds := (w, c) :: r_cmds r |}
+  | OApply s region i t id c res =>
+      let e := {| e_index := i; e_term := t; e_kind := ENormal; e_data := PCmd region id c |} in
       let before := store_of g s in
       let g' := gs g (GDeliver s [e]) in
       let after := store_of g' s in
@@ -141,15 +144,17 @@ Definition rstep (r : rstate) (e : oev) : rstate :=
                     | [] => false
                     end in
       (* ordered delivery as the model needs it, and WaitApplied's promise to earlier reads *)
-      let ok_ord := match s_log before with a :: _ => ap_index a <? i | [] => true end in
-      let ok_mark := served_of (r_served r) s <? i in
-      {| r_g := g'; r_ok := r_ok r && ok_res && ok_ord && ok_mark; r_served := r_served r; r_cmds := r_cmds r |}
-  | OServe s w ridx mark =>
+      let ok_ord := served_of (r_last r) (skey s region) <? i in
+      let ok_mark := served_of (r_served r) (skey s region) <? i in
+      {| r_g := g'; r_ok := r_ok r && ok_res && ok_ord && ok_mark; r_served := r_served r;
+         r_last := set_served (r_last r) (skey s region) i; r_cmds := r_cmds r |}
+  | OServe s region w ridx mark =>
       let st := store_of g s in
       (* WaitApplied let the read through: the mark covers the read index (what the mark
          promises is checked at the later OApply events of this store) *)
       let ok := (ridx =? 0) || (ridx <=? mark) in
-      {| r_g := g; r_ok := r_ok r && ok; r_served := set_served (r_served r) s (N.max mark (served_of (r_served r) s));
+      {| r_g := g; r_ok := r_ok r && ok; r_served := set_served (r_served r) (skey s region) (N.max mark (served_of (r_served r) (skey s region)));
+         r_last := r_last r;
          r_cmds := r_cmds r |}
   | OExec s w res =>
       let st := store_of g s in
@@ -157,7 +162,7 @@ Definition rstep (r : rstate) (e : oev) : rstate :=
                 | Some (_, c) => orresp_eqb (snd (rapply (s_sm st) c)) res
                 | None => false
                 end in
-      {| r_g := g; r_ok := r_ok r && ok; r_served := r_served r; r_cmds := r_cmds r |}
+      {| r_g := g; r_ok := r_ok r && ok; r_served := r_served r; r_last := r_last r; r_cmds := r_cmds r |}
   | ORet w o =>
       let ok := match o with
                 | RoOk uid v =>
@@ -169,13 +174,13 @@ Definition rstep (r : rstate) (e : oev) : rstate :=
                 | RoNotLeader => match predicted g w with None => true | Some _ => false end
                 | RoErr => true
                 end in
-      {| r_g := g; r_ok := r_ok r && ok; r_served := r_served r; r_cmds := r_cmds r |}
+      {| r_g := g; r_ok := r_ok r && ok; r_served := r_served r; r_last := r_last r; r_cmds := r_cmds r |}
   end.
 
 (** a successful ReadCommand returns what its OExec saw *)
 Definition reads_consistent (evs : list oev) : bool :=
   forallb (fun e => match e with
-                    | ORead _ w _ true _ _ =>
+                    | ORead _ _ w _ true _ _ =>
                         match ret_of evs w with
                         | Some (RoOk uid v) =>
                             existsb (fun e' => match e' with
@@ -188,19 +193,24 @@ Definition reads_consistent (evs : list oev) : bool :=
                     end) evs.
 
 Definition replay (evs : list oev) : rstate :=
-  fold_left rstep evs {| r_g := ginit ([] : rsm); r_ok := true; r_served := []; r_cmds := [] |}.
+  fold_left rstep evs {| r_g := ginit ([] : rsm); r_ok := true; r_served := []; r_last := []; r_cmds := [] |}.
 
 (** every waiter that the model completes and whose call returned was compared;
     conversely a call that returned success must have a model completion *)
 Definition returns_predicted (evs : list oev) (g : gstate rcmd rresp rsm) : bool :=
   forallb (fun e => match e with
-                    | OPropose _ w _ true _ (PoRegistered _) =>
+                    | OPropose _ _ w _ true _ (PoRegistered _) =>
                         match ret_of evs w with
                         | Some (RoOk _ _) => match predicted g w with Some _ => true | None => false end
                         | _ => true
                         end
                     | _ => true
                     end) evs.
+
+(** a waiter the model completes is answered: its call returns *)
+Definition completed_return (evs : list oev) (g : gstate rcmd rresp rsm) : bool :=
+  forallb (fun k => match ret_of evs (k_w k) with Some _ => true | None => false end)
+          (flat_map (completions g) [1; 2; 3]).
 
 Inductive case :=
 | CPipe (steps : list ustep) (final : list (N * option (option rresp)))
@@ -213,7 +223,7 @@ Definition check (c : case) : verdict :=
       mk_verdict (negb (ok && polled_ok s final)) false 0
   | CCluster prop evs =>
       let r := replay evs in
-      let mism := negb (r_ok r && reads_consistent evs && returns_predicted evs (r_g r)) in
+      let mism := negb (r_ok r && reads_consistent evs && returns_predicted evs (r_g r) && completed_return evs (r_g r)) in
       let viol := if prop =? 23 then negb (c23_ok evs) else negb (c22_ok evs) in
       mk_verdict mism viol 0
   end.
@@ -222,5 +232,5 @@ Definition check (c : case) : verdict :=
 Definition Pt (u k v : N) : rcmd := {| c_uid := u; c_op := RPut k v |}.
 Definition Gt (u k : N) : rcmd := {| c_uid := u; c_op := RGet k |}.
 Definition Fl (u : N) : rcmd := {| c_uid := u; c_op := RFail |}.
-Definition En (i t id : N) (c : rcmd) : rentry := {| e_index := i; e_term := t; e_kind := ENormal; e_data := PCmd id c |}.
+Definition En (i t g id : N) (c : rcmd) : rentry := {| e_index := i; e_term := t; e_kind := ENormal; e_data := PCmd g id c |}.
 Definition Ex (i t : N) (k : ekind) (d : payload rcmd) : rentry := {| e_index := i; e_term := t; e_kind := k; e_data := d |}.
